@@ -3,15 +3,16 @@
 S=$1; TIER=${2:-quick}
 D=/verif/seeded/$S
 P=$(python3 -c "import json;print(json.load(open('$D/meta.json'))['property'])")
-cd /repo
-git diff --quiet || { echo "/repo not clean"; exit 2; }
+R=${VERIF_REPO:-/repo}
+cd $R
+git diff --quiet || { echo "$R not clean"; exit 2; }
 git apply $D/patch.diff || { echo "$S: patch does not apply"; exit 2; }
 cd /verif
 T0=$(date +%s)
 ./check $P --tier $TIER > /tmp/seeded_$S.log 2>&1
 RC=$?
 T1=$(date +%s)
-git -C /repo checkout -- .
+git -C $R checkout -- .
 NV=$(grep -c "^VIOLATION" /tmp/seeded_$S.log)
 FIRST=$(grep -m1 "counterexample" /tmp/seeded_$S.log | cut -c1-300)
 python3 - "$D" "$RC" "$NV" "$TIER" "$((T1-T0))" "$FIRST" <<'PY'
